@@ -411,7 +411,7 @@ pub fn run(cfg: &Cfg) -> (Log, Meta) {
       }
       v
     }
-    Tier::Thorough => (0..seq.months.len()).filter(|&i| seq.months[i].y % 10 == (cfg.seed % 10) as i64).collect(),
+    Tier::Thorough => (0..seq.months.len()).filter(|&i| seq.months[i].y % 4 == (cfg.seed % 4) as i64).collect(),
   };
   log.merge(par_range(lunar_idx.len(), 4, |i, l| lunar_month_weeks(lunar_idx[i], cfg, l)));
   let nh = cfg.tier.pick(30_000usize, 500_000usize);
